@@ -4,8 +4,11 @@ prop("C11", pkg="c11",
           "within 12 bytes of offsets 4096k / 32768j, or a whitespace run fills a whole buffer); chunk schedules from {0,1,2,3,7,13,100,1000,4095,4096,4097,32767,"
           "32768,1M} with <= 3 consecutive zero-length reads, final chunk delivered with or before the error, terminal error io.EOF / io.ErrUnexpectedEOF / custom at "
           "any offset (1/3 of cases, half of them inside a value). Oracle: encoding/json.Decoder on the delivered bytes in one read (RawMessage or any+UseNumber); "
-          "InputOffset monotone and within [end of value, start of next]; Buffered()+unread remainder == unconsumed input; Parse remainder. Non-trivial = >= 2 values "
-          "and a value crossing a 4096-byte boundary; distinct = FNV-64 of (stream, schedule, fault).",
+          "InputOffset monotone and within [end of value, start of next]; Buffered()+unread remainder == unconsumed input; Parse remainder (into RawMessage, into "
+          "typed targets the first value does not fit, and - ParseRemainder - for jgen-generated target types x directed / generic documents that encoding/json.Valid "
+          "accepts, followed by 0..3 whitespace bytes and a tail from {nothing, another value, a stray bracket / comma / letter / NUL}: whether the value fits "
+          "or Parse reports that it does not, the remainder is exactly the tail). Non-trivial = >= 2 values and a value crossing a 4096-byte boundary, or a "
+          "well-formed first value that does not fit the typed target; distinct = FNV-64 of (stream, schedule, fault) / (document, type, tail).",
      quick=dict(shards=16, scale=1, timeout=900),
      thorough=dict(shards=16, scale=14, timeout=3000),
      fuzz=[('FuzzStreams', 60)],
